@@ -110,6 +110,12 @@ func (x *Exec) resolve(p Str) (node *FNode, parent *FNode, name Str, errk string
 	if len(p.b) == 0 {
 		return nil, nil, Str{}, "ENOENT"
 	}
+	for _, b := range p.b {
+		// a NUL byte in a path is rejected by the os package before any system call (EINVAL)
+		if x.c.Branch(x.c.st.Eq(b, x.c.st.Const(8, 0))) {
+			return nil, nil, Str{}, "EINVAL"
+		}
+	}
 	comps, abs := x.splitPath(p)
 	var all []Str
 	if !abs {
@@ -303,7 +309,7 @@ func init() {
 			return Tuple{(*FileObj)(nil), e}
 		}
 		n, par, name, ek := x.resolve(p)
-		if ek == "ENOTDIR" || (ek == "ENOENT" && par == nil) {
+		if (ek != "" && ek != "ENOENT") || (ek == "ENOENT" && par == nil) {
 			return Tuple{(*FileObj)(nil), x.pathErr("open", p, ek)}
 		}
 		if n != nil && n.dir {
@@ -396,7 +402,7 @@ func init() {
 		if n != nil {
 			return x.pathErr("mkdir", p, "EEXIST")
 		}
-		if ek == "ENOTDIR" || par == nil {
+		if (ek != "" && ek != "ENOENT") || par == nil {
 			return x.pathErr("mkdir", p, ek)
 		}
 		par.ents = append(par.ents, &FEnt{name: name, node: &FNode{dir: true}})
